@@ -3,6 +3,7 @@
 use crate::engine::{replay_steps, Finding, Monitors, Session, Step};
 use crate::exprmodel as em;
 use crate::gen::GenCfg;
+use crate::model::Op;
 use crate::panicmon::guarded;
 use crate::prng::{fnv, Rng};
 use crate::props::hist::{self, HistCfg};
@@ -197,6 +198,67 @@ fn run_random(seed: u64, case: u64, n_ops: usize, rep: &mut Report) {
     }
 }
 
+/// Directed operation lists on a fresh package (table names the alphabet does not use).
+fn directed_ops(rep: &mut Report, only: Option<&str>) {
+    use crate::types::{ColDef, CT};
+    let kv = vec![ColDef::new("K", CT::Int16).key(), ColDef::new("V", CT::Str(0)).nullable()];
+    let mut scen: Vec<(String, Vec<Op>)> = Vec::new();
+    // tables named like the streams the format itself uses
+    for name in ["_StringPool", "_StringData", "_SummaryInformation", "SummaryInformation", "_Streams", "_Storages", "MsiDigitalSignatureEx"] {
+        scen.push((
+            format!("table-named-{}", name),
+            vec![
+                Op::CreateTable { name: "T".into(), cols: kv.clone() },
+                Op::Insert { table: "T".into(), rows: vec![vec![V::Int(1), V::s("t0x1 one")]] },
+                Op::CreateTable { name: name.into(), cols: kv.clone() },
+                Op::Insert { table: name.into(), rows: vec![vec![V::Int(7), V::s("t0x7 seven")]] },
+                Op::Update { table: name.into(), sets: vec![("V".into(), V::s("t0x8 eight"))], cond: None },
+                Op::Delete { table: name.into(), cond: None },
+                Op::DropTable { name: name.into() },
+            ],
+        ));
+    }
+    let mon = monitors();
+    for (name, ops) in scen {
+        if only.map(|o| o != name).unwrap_or(false) {
+            continue;
+        }
+        let mut steps: Vec<Step> = Vec::new();
+        for (i, op) in ops.iter().enumerate() {
+            steps.push(Step::Do(op.clone()));
+            if i >= 2 {
+                steps.push(Step::Close(crate::engine::CLOSE_MODES[i % 3]));
+            }
+        }
+        let mut scratch = Report::new();
+        let mut finding = None;
+        match Session::create("Installer") {
+            Err(f) => finding = Some(f),
+            Ok(mut s) => {
+                for st in &steps {
+                    let r = match st {
+                        Step::Do(op) => s.apply(op, &mon, &mut scratch),
+                        Step::Close(m) => s.close_point(*m, &mut scratch),
+                    };
+                    if let Err(f) = r {
+                        s.leak();
+                        finding = Some(f);
+                        break;
+                    }
+                }
+            }
+        }
+        for (k, v) in scratch.counters {
+            rep.add(&k, v);
+        }
+        rep.case(Some(fnv(name.as_bytes())));
+        rep.count("directed_scenarios");
+        if let Some(f) = finding {
+            hist::record(rep, "C03", &f, "Installer", None, &steps, &mon, json!({"kind": "directed-ops", "name": name}));
+        }
+    }
+}
+
 fn directed(rep: &mut Report, base: &[u8]) {
     // one scenario per defect class ever seen: key-column update to a colliding constant,
     // order-changing key update, delete-then-insert slot reuse with reopen
@@ -216,6 +278,7 @@ pub fn run(ctx: &Ctx) -> Report {
                 let word: Vec<char> = w["word"].as_str().unwrap_or("").chars().collect();
                 run_word(&base, w["case"].as_u64().unwrap_or(0), &word, &mut rep);
             }
+            Some("directed-ops") => directed_ops(&mut rep, w["name"].as_str()),
             Some("random") => run_random(
                 w["seed"].as_u64().unwrap_or(ctx.seed),
                 w["case"].as_u64().unwrap_or(0),
@@ -234,6 +297,9 @@ pub fn run(ctx: &Ctx) -> Report {
         let mut rep = Report::new();
         if shard == 0 {
             directed(&mut rep, base_ref);
+        }
+        if shard == 1 % n {
+            directed_ops(&mut rep, None);
         }
         hist::for_each_word(&ALPHABET, depth, shard, n, |idx, word| {
             run_word(base_ref, idx, word, &mut rep);
